@@ -37,9 +37,10 @@ def count_key_lists(kind, nkeys, nrows):
     return (len(KEY_ALPHA[kind]) ** nkeys) ** nrows
 
 
-def build_side(side, keys, nkeys, config, form):
+def build_side(side, keys, nkeys, config, form, variant=None):
     """Return (table, on_spec, model_columns) for one side.
-    model_columns = [(name, [values])] in table column order."""
+    model_columns = [(name, [values])] in table column order.
+    variant: index into provenance.TABLE_ROUTES (the table is then built through that route) or None (direct)."""
     from serif import Table, Vector
     cfg = CONFIGS[config]
     n = len(keys)
@@ -57,7 +58,11 @@ def build_side(side, keys, nkeys, config, form):
         cols = kcols + pays
     else:
         cols = pays[:1] + kcols + pays[1:]
-    t = Table([Vector(list(vals), name=nm) for nm, vals in cols])
+    if variant is None or not cols:
+        t = Table([Vector(list(vals), name=nm) for nm, vals in cols])
+    else:
+        from . import provenance
+        _, t = provenance.table_variant(cols, variant)
     if form == "name":
         on = [nm for nm, _ in kcols]
     elif form == "column":
